@@ -193,3 +193,86 @@ def c_bin_build(c, k, ke):
         c.prove("the bin's own membership test (RangelistModel.__contains__ on the produced list) accepts exactly that set",
                 Iff(c.summarize(lambda: v in m.binspec), want))
         c.prove("the bin keeps its name", m.name == "b")
+
+
+# ---- coverpoint.build_cov_model: the glue between the user's bins / ignore / illegal specification and the partition ----
+def shapes_cp_build(tier, seed):
+    out = []
+    for (w, s) in ((1, False), (4, False), (4, True), (8, True), (32, False)):
+        for ig in (0, 1, 2):
+            for il in (0, 1):
+                for amax in (None, 1, 3):
+                    if amax is not None and (w, s) not in ((4, False), (8, True)):
+                        continue
+                    out.append((w, s, ig, il, amax))
+    return out
+
+
+@contract("coverage.coverpoint.build_cov_model", ["C10"], ["vsc.coverage.coverpoint.build_cov_model"], shapes_cp_build,
+          max_paths=60000,
+          note="coverpoint.build_cov_model glue: type width/sign enumerated {bit1, bit4, int4, int8, bit32}; 0..2 ignore and 0..1 "
+               "illegal ranges with unbounded symbolic endpoints in any order/overlap; auto_bin_max in {default, 1, 3}. "
+               "mk_collection / bin.build_cov_model are replaced by recorders: the caller is checked against their "
+               "preconditions (ascending, disjoint) and hands them exactly type-range minus excluded values")
+def c_cp_build(c, w, signed, nig, nil, amax):
+    import vsc
+    from pyvc.ghost import patched
+    from vsc.model.coverpoint_bin_collection_model import CoverpointBinCollectionModel
+    from vsc.model.coverpoint_bin_single_range_model import CoverpointBinSingleRangeModel
+    ig = fresh_ranges(c, nig, "ig")
+    il = fresh_ranges(c, nil, "il")
+    seen = []
+
+    def rec_mk(name, binspec, n):
+        seen.append(("auto", name, [(r[0], r[1]) for r in binspec.range_l], n))
+        return CoverpointBinSingleRangeModel(name, 0, 0)
+
+    class rec_bin(vsc.bin):
+        def build_cov_model(self, parent, name, excl):
+            seen.append(("bin", name, None if excl is None else [(r[0], r[1]) for r in excl.range_l], self))
+            return CoverpointBinSingleRangeModel(name, 0, 0)
+
+    for explicit in (False, True):
+        del seen[:]
+
+        @vsc.covergroup
+        class cg(object):
+            def __init__(self):
+                self.with_sample(dict(a=vsc.int_t(w) if signed else vsc.bit_t(w)))
+                kw = {}
+                if nig:
+                    kw["ignore_bins"] = {"ig": rec_bin(*ig)}
+                if nil:
+                    kw["illegal_bins"] = {"il": rec_bin(*il)}
+                if explicit:
+                    kw["bins"] = {"b0": rec_bin(1), "b1": rec_bin((2, 3))}
+                opts = {} if amax is None else {"auto_bin_max": amax}
+                self.cp = vsc.coverpoint(self.a, options=opts, **kw)
+        with patched((CoverpointBinCollectionModel, "mk_collection", staticmethod(rec_mk))):
+            inst = cg()
+        v = c.fresh_int("v")
+        excl = Or(member(v, ig), member(v, il))
+        lo, hi = (-(1 << (w - 1)), (1 << (w - 1)) - 1) if signed else (0, (1 << w) - 1)
+        if not explicit:
+            autos = [s for s in seen if s[0] == "auto"]
+            c.prove("auto-bins: the partition is requested exactly once, with auto_bin_max (default 64)",
+                    len(autos) == 1 and autos[0][3] == (64 if amax is None else amax))
+            rl = autos[0][2]
+            c.prove("auto-bins: the value list handed to the partition == the type's whole range minus ignore/illegal values (forall v)",
+                    Iff(member(v, rl), And(v >= lo, v <= hi, Not(excl))))
+            c.prove("auto-bins: that list satisfies the partition's precondition (ascending, pairwise disjoint)", sorted_disjoint(rl))
+        else:
+            regs = [s for s in seen if s[0] == "bin" and s[1] in ("b0", "b1")]
+            c.prove("explicit bins: every bin specification is built once, in dict order", [s[1] for s in regs] == ["b0", "b1"])
+            for s in regs:
+                c.prove("explicit bins: the exclusion list handed to each bin == ignore + illegal values (forall v)",
+                        Iff(member(v, s[2]), excl))
+                c.prove("explicit bins: the exclusion list satisfies the callee's precondition (ascending, pairwise disjoint)",
+                        sorted_disjoint(s[2]))
+        igs = [s for s in seen if s[0] == "bin" and s[1] in ("ig", "il")]
+        c.prove("ignore / illegal bins get their own models, built without any exclusion",
+                sorted(s[1] for s in igs) == sorted((["ig"] if nig else []) + (["il"] if nil else [])) and all(s[2] is None for s in igs))
+        m = inst.get_model().coverpoint_l[0]
+        c.prove("the coverpoint has the regular / ignore / illegal bin models in their own lists",
+                len(m.bin_model_l) == (2 if explicit else 1) and len(m.ignore_bin_model_l) == (1 if nig else 0)
+                and len(m.illegal_bin_model_l) == (1 if nil else 0))
